@@ -240,7 +240,16 @@ def translate():
     except Exception:
         rep['arrayio'] = {'error': out13[-500:]}
         rep['untranslatable'].append({'name': 'array::read_binary / write_binary', 'group': 'ArrayIO', 'why': out13[-500:]})
-    return rep, out + out2 + out3 + out4 + out5 + out6 + out7 + out8 + out9 + out10 + out11 + out12 + out13
+    # the converting constructors of the layers (Gen_Conv.v)
+    rc14, out14 = sh([sys.executable, os.path.join(VERIF, 'tools', 'cxx_conv.py'), REPO, os.path.join(COQ, 'gen', 'Gen_Conv.v')], timeout=600)
+    try:
+        rep['conv'] = json.loads(out14.strip().split('\n')[-1])
+        for pr in rep['conv']['problems']:
+            rep['untranslatable'].append({'name': 'converting constructors', 'group': 'Copy', 'why': pr})
+    except Exception:
+        rep['conv'] = {'error': out14[-500:]}
+        rep['untranslatable'].append({'name': 'converting constructors', 'group': 'Copy', 'why': out14[-500:]})
+    return rep, out + out2 + out3 + out4 + out5 + out6 + out7 + out8 + out9 + out10 + out11 + out12 + out13 + out14
 
 
 def coq_makefile():
